@@ -411,30 +411,45 @@ namespace sim
     {
         static constexpr int tag = Tag;
         uint64_t id;
+        uint32_t where;     // low bits of the address the object was constructed at (never logged or digested):
+                            // an object whose bytes were relocated without running a constructor no longer matches
         bool moved;
         unsigned char pad[Pad ? Pad : 1];
 
-        Tracked() : id(0), moved(false)
+        static uint32_t here(const void* p) { return static_cast<uint32_t>(reinterpret_cast<uintptr_t>(p) >> 3) ^ 0x5bd1e995u; }
+        bool in_place() const { return where == here(this); }
+        void check_place(const char* what) const
+        {
+            if (!in_place())
+            {
+                Suspend s;
+                defer("lifetime", registry().sigprefix + "/lifetime/relocated", std::string(what) + " an object whose bytes were moved here without running a constructor");
+            }
+        }
+
+        Tracked() : id(0), where(here(this)), moved(false)
         {
             fault_point(FK_THROW);
             registry().on_construct(this, Tag, id, moved);
         }
-        explicit Tracked(uint64_t v) : id(v), moved(false)
+        explicit Tracked(uint64_t v) : id(v), where(here(this)), moved(false)
         {
             fault_point(FK_THROW);
             registry().on_construct(this, Tag, id, moved);
         }
-        Tracked(const Tracked& o) : id(0), moved(false)
+        Tracked(const Tracked& o) : id(0), where(here(this)), moved(false)
         {
             registry().use(&o, Tag, "copy construction from");
+            o.check_place("copy construction from");
             if (CanThrowCopy) fault_point(FK_THROW);
             id = o.id; moved = o.moved;
             registry().on_construct(this, Tag, id, moved);
             ++registry().copies;
         }
-        Tracked(Tracked&& o) noexcept(NothrowMove) : id(0), moved(false)
+        Tracked(Tracked&& o) noexcept(NothrowMove) : id(0), where(here(this)), moved(false)
         {
             registry().use(&o, Tag, "move construction from");
+            o.check_place("move construction from");
             if (!NothrowMove) fault_point(FK_THROW);
             id = o.id; moved = o.moved;
             o.moved = true; registry().set(&o, o.id, true);
@@ -445,6 +460,7 @@ namespace sim
         {
             registry().use(this, Tag, "copy assignment to");
             registry().use(&o, Tag, "copy assignment from");
+            check_place("copy assignment to"); o.check_place("copy assignment from");
             if (CanThrowCopy) fault_point(FK_THROW);
             id = o.id; moved = o.moved;
             registry().set(this, id, moved);
@@ -455,6 +471,7 @@ namespace sim
         {
             registry().use(this, Tag, "move assignment to");
             registry().use(&o, Tag, "move assignment from");
+            check_place("move assignment to"); o.check_place("move assignment from");
             if (!NothrowMove) fault_point(FK_THROW);
             if (this != &o)
             {
@@ -465,7 +482,7 @@ namespace sim
             ++registry().assigns;
             return *this;
         }
-        ~Tracked() { registry().on_destroy(this, Tag); }
+        ~Tracked() { check_place("destruction of"); registry().on_destroy(this, Tag); }
 
         friend bool operator==(const Tracked& a, const Tracked& b) { return a.id == b.id; }
         friend bool operator!=(const Tracked& a, const Tracked& b) { return a.id != b.id; }
@@ -474,6 +491,11 @@ namespace sim
         friend bool operator<=(const Tracked& a, const Tracked& b) { return a.id <= b.id; }
         friend bool operator>=(const Tracked& a, const Tracked& b) { return a.id >= b.id; }
     };
+
+    // was the object constructed where it is now?  (always true for untracked types)
+    template <class T> inline bool placed(const T&) { return true; }
+    template <int Tag, size_t Pad, bool NM, bool CC, size_t Al>
+    inline bool placed(const Tracked<Tag, Pad, NM, CC, Al>& t) { return t.in_place(); }
 
     /*********************
      * allocator seam
